@@ -324,26 +324,41 @@ package plush
 
 //@ func unsafeGetBytes
 //@ trusted
-//@ ensures len(result) == len(s)
+//@ ensures strb(result) == s
 //@ assigns nothing
+
+// ---- C01: the single output sink ---------------------------------------------------------------
+// What write appends for the kinds of value the property names. escaper(v) is html/template's
+// HTMLEscaper applied to v (assumed: its result contains none of < > & ' "); trusted HTML is
+// appended verbatim exactly once; a []string is the concatenation of its escaped elements.
+
+//@ spec rseqs(t []string, n int) string
+//@ axiom rseqs0: forall t []string :: rseqs(t, 0) == ""
+//@ axiom rseqsS: forall t []string, n int :: 0 <= n && n < len(t) ==> rseqs(t, n+1) == rseqs(t, n) + escaper(box(t[n]))
 
 //@ func (c *compiler) write
 //@ requires bb != nil
 //@ requires cctx: cctx(c)
 //@ ensures restored: c.ctx == old(c.ctx) && (c.curStmt == nil || pay(c.curStmt) != 0)
-//@ assigns nothing
-//@ loop 1: invariant true
-//@ loop 2: invariant true
-//@ loop 3: invariant true
+//@ ensures str: is(i, "string") || is(i, "bool") ==> out(bb) == old(out(bb)) + escaper(i)
+//@ ensures html: is(i, "template.HTML") ==> out(bb) == old(out(bb)) + unbox(i, "template.HTML")
+//@ ensures nilv: i == nil ==> out(bb) == old(out(bb))
+//@ ensures def_sink: trusted(old(out(bb))) ==> trusted(out(bb))
+//@ ensures strs: is(i, "[]string") ==> out(bb) == old(out(bb)) + rseqs(unbox(i, "[]string"), len(unbox(i, "[]string")))
+//@ assigns out(bb)
+//@ loop 1: invariant bb != nil && cctx(c) && c.ctx == old(c.ctx) && 0 <= ridx1 && ridx1 <= len(t) && t == unbox(i, "[]string") && out(bb) == old(out(bb)) + rseqs(t, ridx1)
+//@ loop 2: invariant bb != nil && cctx(c) && c.ctx == old(c.ctx)
+//@ loop 3: invariant bb != nil && cctx(c) && c.ctx == old(c.ctx)
 
 //@ func (c *compiler) compile
 //@ requires cctx: cctx(c)
 //@ requires prog: c.program != nil
+//@ ensures rendered: err == nil ==> trusted(result)
 //@ ensures restored: c.ctx == old(c.ctx) && (c.curStmt == nil || pay(c.curStmt) != 0)
 //@ ensures empty: err != nil ==> result == ""
 //@ errprop
 //@ assigns c.ctx, c.curStmt, mapsof("map[string]interface{}"), fresh
-//@ loop 1: invariant cctx(c) && c.ctx == old(c.ctx) && c.program == old(c.program)
+//@ loop 1: invariant cctx(c) && c.ctx == old(c.ctx) && c.program == old(c.program) && bb != nil && trusted(out(bb))
 
 //@ func (t *Template) Parse
 //@ ensures ok: err == nil ==> t.program != nil
@@ -353,6 +368,7 @@ package plush
 
 //@ func (t *Template) Exec
 //@ requires cctx: is(ctx, "*Context") && pay(ctx) != 0
+//@ ensures rendered: err == nil ==> trusted(result)
 //@ ensures empty: err != nil ==> result == ""
 //@ errprop
 //@ assigns t.program, mapsof("map[string]interface{}"), fresh
@@ -362,11 +378,12 @@ package plush
 //@ assigns fresh
 
 //@ func NewTemplate
-//@ ensures ok: result != nil && result.Input == input && (err == nil ==> result.program != nil)
+//@ ensures ok: fresh(result) && result.Input == input && (err == nil ==> result.program != nil)
 //@ errprop
 //@ assigns fresh
 
 //@ func (h HelperContext) BlockWith
+//@ ensures rendered: err == nil ==> trusted(result)
 //@ requires hc: !(is(hc, "*Context") && pay(hc) == 0)
 //@ requires comp: h.compiler != nil && cctx(h.compiler)
 //@ ensures restored: h.compiler.ctx == old(h.compiler.ctx) && (h.compiler.curStmt == nil || pay(h.compiler.curStmt) != 0)
@@ -375,6 +392,7 @@ package plush
 //@ assigns h.compiler.ctx, h.compiler.curStmt, mapsof("map[string]interface{}"), fresh
 
 //@ func (h HelperContext) Block
+//@ ensures rendered: err == nil ==> trusted(result)
 //@ requires hc: !(is(h.Context, "*Context") && pay(h.Context) == 0)
 //@ requires comp: h.compiler != nil && cctx(h.compiler)
 //@ ensures restored: h.compiler.ctx == old(h.compiler.ctx) && (h.compiler.curStmt == nil || pay(h.compiler.curStmt) != 0)
@@ -394,3 +412,55 @@ package plush
 //@ assigns nothing
 //@ iface plush.interfaceable.Interface(x) r
 //@ assigns nothing
+
+// ---- package state: the template cache (C13/C14) ------------------------------------------------
+//@ pred pkginit() = moot != nil && cache != nil && forall k string :: has(cache, k) ==> cache[k] != nil
+
+//@ func CacheSet
+//@ requires pkginit() && t != nil
+//@ ensures put: has(cache, key) && cache[key] == t
+//@ ensures rest: forall k string :: k != key ==> has(cache, k) == old(has(cache, k)) && cache[k] == old(cache[k])
+//@ ensures init: pkginit()
+//@ assigns contents(cache)
+
+//@ func Parse
+//@ requires pkginit()
+//@ ensures init: pkginit()
+//@ ensures ok: err == nil ==> result != nil
+//@ ensures input: result != nil && !(CacheEnabled && old(has(cache, input))) ==> result.Input == input
+//@ ensures off: !CacheEnabled ==> fresh(result) && (forall k string :: has(cache, k) == old(has(cache, k)) && cache[k] == old(cache[k]))
+//@ ensures hit: CacheEnabled && old(has(cache, input)) ==> err == nil && result == old(cache[input]) && (forall k string :: has(cache, k) == old(has(cache, k)) && cache[k] == old(cache[k]))
+//@ ensures miss: CacheEnabled && !old(has(cache, input)) && err == nil ==> fresh(result) && has(cache, input) && cache[input] == result && (forall k string :: k != input ==> has(cache, k) == old(has(cache, k)) && cache[k] == old(cache[k]))
+//@ ensures failed: err != nil ==> (forall k string :: has(cache, k) == old(has(cache, k)) && cache[k] == old(cache[k]))
+//@ errprop
+//@ assigns contents(cache), fresh
+
+//@ func Render
+//@ requires pkginit()
+//@ requires cctx: is(ctx, "*Context") && pay(ctx) != 0
+//@ ensures init: pkginit()
+//@ ensures rendered: err == nil ==> trusted(result)
+//@ ensures empty: err != nil ==> result == ""
+//@ errprop
+//@ assigns contents(cache), anyobj(Template.program), mapsof("map[string]interface{}"), fresh
+
+//@ func (h HelperContext) Render
+//@ requires pkginit()
+//@ requires cctx: is(h.Context, "*Context") && pay(h.Context) != 0
+//@ ensures rendered: err == nil ==> trusted(result)
+//@ ensures empty: err != nil ==> result == ""
+//@ errprop
+//@ assigns contents(cache), anyobj(Template.program), mapsof("map[string]interface{}"), fresh
+
+// the application-supplied partial feeder (user code, U1)
+//@ functype plush.partialFeeder(f, name) text, err
+//@ sig func(string) (string, error)
+//@ assigns mapsof("map[string]interface{}"), fresh
+
+//@ func PartialHelper
+//@ requires pkginit()
+//@ requires u3: help.Context == nil || (is(help.Context, "*Context") && pay(help.Context) != 0)
+//@ ensures fail: err != nil ==> result == ""
+//@ errprop
+//@ assigns contents(cache), anyobj(Template.program), mapsof("map[string]interface{}"), fresh
+//@ loop 1: invariant is(help.Context, "*Context") && pay(help.Context) != 0 && pkginit()
